@@ -1,3 +1,4 @@
+import GoSQLXModel.Gen.Structure
 import GoSQLXModel.Model.Metrics
 import GoSQLXModel.Gen.SharedState
 import GoSQLXModel.Gen.Known
@@ -42,6 +43,12 @@ def unguardedVars : List (String × String) :=
 
 theorem gen_shared_guarded :
     (unguardedVars.filter fun v => !Gen.Known.unguarded_global.contains v) = [] := by decide +kernel
+
+/-- every tokenizer run reports to the metrics the length of the text it was handed: each `RecordTokenization` call of
+    pkg/sql/tokenizer passes `len(<its own byte-slice parameter>)`, a parameter the function never assigns to
+    (regenerated) — the `sizes` of `totals_exact` are the sizes of the arguments, also for refused oversize texts -/
+theorem gen_sizes_are_argument_lengths :
+    Gen.Structure.metricsSizeArgs.all (·.2.2) = true ∧ Gen.Structure.metricsSizeArgs.length ≥ 2 := by decide +kernel
 
 /-- **C10 (metrics totals)**, stated for the extracted protocol: N goroutines record sizes `sizes`;
     for every schedule of their micro-steps that runs them to completion the operation counter equals
